@@ -363,7 +363,92 @@ int main(int argc, char** argv)
             }
         }
     };
+    // sizes: a wide declaration (26 options a-z, 26 toggles A-Z, 10 multi-options 0-9, spread over 4 groups) - every item
+    // alone in every spelling, all of them at once, all toggle letters in one bundle, long values around the short-string
+    // and small-buffer thresholds
+    auto shw = sharded(a, "C02wide");
+    shw.prop = "C02";
+    shw.walk = [&](mc::Ctx& ctx) {
+        Decl W;
+        const char* groups[] = { "", "input", "output", "zz-debug" };
+        for (int i = 0; i < 26; i++)
+        {
+            auto o = Item::opt(std::string("opt-") + static_cast<char>('a' + i) + (i % 3 ? "" : std::string(20 + i, 'x')), std::string(1, static_cast<char>('a' + i)));
+            o.group = groups[i % 4];
+            W.items.push_back(o);
+            auto t = Item::tog(std::string("tog-") + static_cast<char>('a' + i), std::string(1, static_cast<char>('A' + i)), i % 2 == 0);
+            t.group = groups[(i + 1) % 4];
+            W.items.push_back(t);
+        }
+        for (int i = 0; i < 10; i++)
+        {
+            auto m = Item::multi("multi-" + std::to_string(i), std::to_string(i));
+            m.group = groups[i % 4];
+            W.items.push_back(m);
+        }
+        W.accepted = UNLIMITED;
+        std::vector<std::vector<std::string>> avs;
+        std::vector<std::string> all_long, all_short, all_eq;
+        std::string bundle = "-";
+        std::vector<std::string> values = { "v", std::string(15, 'p'), std::string(16, 'q'), std::string(17, 'r'), std::string(255, 's'), std::string(256, 't'), std::string(4097, 'u') };
+        int vi = 0;
+        for (auto& it : W.items)
+        {
+            const std::string& v = values[vi++ % values.size()];
+            if (it.kind == 't')
+            {
+                avs.push_back({ "--" + it.name });
+                avs.push_back({ "-" + it.sh });
+                avs.push_back({ "-" + it.sh + it.sh + it.sh });
+                all_long.push_back("--" + it.name);
+                all_short.push_back("-" + it.sh);
+                all_eq.push_back("-" + it.sh);
+                bundle += it.sh;
+            }
+            else
+            {
+                avs.push_back({ "--" + it.name, v });
+                avs.push_back({ "--" + it.name + "=" + v });
+                avs.push_back({ "-" + it.sh, v });
+                avs.push_back({ "-" + it.sh + "=" + v });
+                all_long.push_back("--" + it.name);
+                all_long.push_back(v);
+                all_short.push_back("-" + it.sh);
+                all_short.push_back(v);
+                all_eq.push_back("--" + it.name + "=" + v);
+                if (it.kind == 'm')
+                {
+                    all_eq.push_back("-" + it.sh + "=" + v + "2");
+                    avs.push_back({ "-" + it.sh, v, "--" + it.name + "=" + v + "2", "-" + it.sh + "=3" });
+                }
+            }
+        }
+        avs.push_back(all_long);
+        avs.push_back(all_short);
+        avs.push_back(all_eq);
+        avs.push_back({ bundle });
+        avs.push_back({ bundle, bundle + "A" });
+        {
+            auto rev = all_eq;
+            std::reverse(rev.begin(), rev.end());
+            rev.push_back("pos1");
+            rev.push_back("--");
+            rev.push_back("--opt-a=not-an-option");
+            avs.push_back(rev);
+        }
+        for (auto& av : avs)
+        {
+            long idx = ctx.next;
+            ctx.each([&] { return chk.describe(W, av, {}); }, [&](mc::Report& rep) { chk.run_case(W, av, {}, rep, idx); });
+            long vidx = ctx.next;
+            ctx.each([&] { return chk.describe_vector_entry(W, av, {}); }, [&](mc::Report& rep) { chk.run_vector_entry(W, av, {}, rep, vidx); });
+            chk.used_before(ctx, W, W, av, {});
+        }
+    };
+    auto repw = shw.run();
+    repw.counters.erase("wall_ms");
     auto rep = sh.run();
+    rep.merge(repw);
     for (size_t p = 0; p < plans.size(); p++)
     {
         rep.counters["plan" + std::to_string(p) + "_max_items"] = plans[p].k;
